@@ -15,11 +15,52 @@ type Analysis struct {
 	effects map[*ssa.Function]*effectSet
 	escMemo map[*ssa.Alloc]bool
 	inprog  map[*ssa.Function]bool
+	Mode     int             // inlining view: 0 none, 1 helpers not in the baseline, 2 every same-package function
+	Baseline map[string]bool // function names the rules were written against
+	recMemo  map[*ssa.Function]bool
+}
+
+// isRecursive: f can reach itself through static calls.
+func (an *Analysis) isRecursive(f *ssa.Function) bool {
+	if an.recMemo == nil {
+		an.recMemo = map[*ssa.Function]bool{}
+	}
+	if v, ok := an.recMemo[f]; ok {
+		return v
+	}
+	seen := map[*ssa.Function]bool{}
+	var reach func(g *ssa.Function) bool
+	reach = func(g *ssa.Function) bool {
+		for _, b := range g.Blocks {
+			for _, in := range b.Instrs {
+				if c, ok := in.(ssa.CallInstruction); ok {
+					if sc := c.Common().StaticCallee(); sc != nil {
+						if sc.Origin() != nil {
+							sc = sc.Origin()
+						}
+						if sc == f {
+							return true
+						}
+						if !seen[sc] && len(sc.Blocks) > 0 {
+							seen[sc] = true
+							if reach(sc) {
+								return true
+							}
+						}
+					}
+				}
+			}
+		}
+		return false
+	}
+	r := reach(f)
+	an.recMemo[f] = r
+	return r
 }
 
 func NewAnalysis(P *Program) *Analysis {
 	return &Analysis{P: P, paths: map[*ssa.Function]*FuncPaths{}, effects: map[*ssa.Function]*effectSet{},
-		escMemo: map[*ssa.Alloc]bool{}, inprog: map[*ssa.Function]bool{}}
+		escMemo: map[*ssa.Alloc]bool{}, inprog: map[*ssa.Function]bool{}, Baseline: baselineFuncs()}
 }
 
 // effectSet: which abstract location classes a piece of code may write (E5b).
